@@ -345,6 +345,33 @@ def resolve_at(g, at_ast, expr, depth=0):
     return expr
 
 
+def r06_5(run):
+    """every port 0..65535 and every host is accepted by the constructor path: no test on the port
+    can reach a raise for a representative of the legal range"""
+    units = [run.idx.unit(MOD + '._create_ip_address'), run.idx.find_method(machine(run), '__init__')]
+    for u in units:
+        g = cfg_of(u)
+        pn = [p for p in u.params if p == 'port']
+        if not pn:
+            continue
+        tests = [t for t in g.live if t.kind == 'test' and any(isinstance(x, ast.Name) and x.id == 'port' for x in ast.walk(t.ast))]
+        for v in (0, 1, 80, 65534, 65535):
+            for t in tests:
+                r = eval_small(t.ast, {'port': v})
+                if r is UNKNOWN:
+                    continue
+                lab = 'T' if r else 'F'
+                nxt = [s_ for l, s_ in t.succ if l == lab]
+                reach = g.reachable(nxt)
+                bad = g.exit_raise in reach and not any(e in reach for e in g.normal_exits())
+                run.ob('R06.5', u, t.ast, 'port %d is accepted' % v, not bad, slot='port-range@%s' % u.short,
+                       message='%s: the test %s refuses port %d, which is a legal TCP port' % (u.short, src(t.ast), v))
+        run.ob('R06.5', u, u.node, 'port tests examined in %s' % u.short, True)
+    mi = run.idx.find_method(machine(run), '__init__')
+    ok = any(isinstance(n, ast.Call) and dotted(n.func) == '_create_ip_address' and len(n.args) == 2 and dotted(n.args[1]) == 'port' for n in walk_unit(mi))
+    run.ob('R06.5', mi, mi.node, 'the port reaches the address object unchanged', ok, slot='port-flow', message='port is not passed unchanged to _create_ip_address')
+
+
 def r06_4(run):
     disp = dispatch_table(run)
     k = 0
@@ -369,7 +396,7 @@ def r06_4(run):
                     if isinstance(v, ast.Call) and callee_attr(v) == 'encode':
                         enc = const(v.args[0]) if v.args else (next((const(kw.value) for kw in v.keywords if kw.arg == 'encoding'), None))
                         err = const(v.args[1]) if len(v.args) > 1 else next((const(kw.value) for kw in v.keywords if kw.arg == 'errors'), 'strict')
-                        ok = enc in ('ascii', 'us-ascii', 'idna') and err == 'strict'
+                        ok = enc in ('ascii', 'us-ascii') and err == 'strict'
                         why = 'encode(%r, errors=%r)' % (enc if enc is not None else 'utf-8 (default)', err)
                     run.ob('R06.4', u, pk, 'hostname bytes come from a strict ASCII/IDNA encoding', ok, slot='encode:%s' % fname,
                            message='%s sends the name through %s: a non-ASCII name goes out as UTF-8 bytes instead of being refused' % (fname, why))
@@ -388,6 +415,7 @@ RULES = [
     ('R06.1', 'constant folding: method selection = 05 01 00, sent on (unconnected, connection)', r06_1),
     ('R06.2', 'struct format x header x address agreement with RFC 1928 for every request type and address family (path enumeration over the family atom)', r06_2),
     ('R06.3', 'one request, only after a version-5 reply selecting method 0 (table + dominance)', r06_3),
+    ('R06.5', 'no test narrows the legal port range 0..65535 (representatives evaluated through the comparisons)', r06_5),
     ('R06.4', 'sibling agreement: every packed hostname comes from a strict ASCII encoding and a one-byte length', r06_4),
 ]
 
@@ -411,5 +439,4 @@ MUTANTS = [
 TWINS = [
     M('greeting-literal', F, "struct.pack('BBB', 5, 1, 0)", "b'\\x05\\x01\\x00'"),
     M('gt-order', F, "                '!BBBBB{}sH'.format(len(host)),\n                5,                   # version\n                0xF0,", "                '>BBBBB{}sH'.format(len(host)),\n                5,                   # version\n                0xF0,"),
-    M('idna', F, "            host = host.encode('ascii')", "            host = host.encode('idna')"),
 ]
